@@ -179,3 +179,17 @@ Theorem C17_record_type_last_segment : forall table refs lead pre last gens refs
       rtype_of table (TyPath refs lead (pre ++ (last :: nil)) gens) k = (if in_table table last then RValue else RDebug)).
 Proof. intros. split; [apply rtype_spelling_irrelevant | apply rtype_last_segment]. Qed.
 Print Assumptions C17_record_type_last_segment.
+
+(** The name clause of C17_one_span for every way the macro reaches gen_block.  In [TNewSpan (a_name a) ..] the name
+    [None] denotes the name of the function that carries the attribute.  That is what the source passes at each of the
+    four call sites (generated obligation) -- in particular at `AsyncKind::Function` ([KHelper]: the async-trait <= 0.1.43
+    shape `async fn helper(..) {..}; Box::pin(helper(..))`), where gen_function is handed the inner helper and the name
+    has to come from the annotated outer function; there gen_function picks the async templates because the helper is an
+    `async fn`, and [run] treats the call like an `async fn` (the helper receives every argument). *)
+Theorem C17_source_span_name :
+  (forall s, Gen_attr.gen_name_source s = Some NSAnnotated)
+  /\ (forall k, Gen_attr.gen_name_source (site_of_kind k) = Some (default_name_source k))
+  /\ Gen_attr.gen_helper_async_from_sig = true
+  /\ Gen_attr.gen_block_async_true = true.
+Proof. exact source_span_name. Qed.
+Print Assumptions C17_source_span_name.
